@@ -153,6 +153,13 @@ def check_config(ctx, rep, cfg):
     rep.floor("sealed-box openers" + tag, len(sealers), 2)
     for f in sealers:
         seal_nonce(rep, prog, f, results, tag)
+        faithful_copies(rep, prog, f, results, tag)
+    # every accepted comparison has operands of equal static width (a slice ct_eq of unequal
+    # lengths is constantly false; on the accept side that only rejects, but it signals a wrong operand)
+    for f in roots:
+        for c in cm.mac_prim_atoms(f):
+            ok, ws = cm.equal_widths(f, c)
+            rep.ob("WIDTH", "%s|equal operand widths%s" % (f.path, tag), ok, "operand widths %s" % (ws,), loc=c.loc())
 
 
 def stream_mac(rep, prog, f, tag):
@@ -247,3 +254,32 @@ def seal_nonce(rep, prog, f, results, tag):
                    "nonce argument of %s depends on parameters %s; it must depend on the ephemeral key "
                    "carried by the ciphertext/object and on the recipient public key" % (a.rpath.split("::")[-1], names),
                    loc=a.loc())
+
+
+def faithful_copies(rep, prog, f, results, tag):
+    """Local buffers that carry wire components from the ciphertext to the authenticating call (the
+    ephemeral key copy, the derived nonce) are written exactly once before that call: by the copy of
+    the ciphertext bytes, respectively by the nonce derivation. Any other write (masking a bit,
+    normalising) makes distinct wire values collide."""
+    r = results.get(f.key)
+    if r is None:
+        return
+    for a, kind in r.atoms:
+        if kind != "call":
+            continue
+        for i, arg in enumerate(a.args):
+            ls = list(operand_locals(arg))
+            if not ls:
+                continue
+            root, _ = cm.view_info(f, ls[0])
+            if root <= f.argc or not f.locals[root]["t"].startswith("[u8; "):
+                continue
+            evs = [e for e in cm.write_events(f, root) if e[0] in f.dom.get(a.bb, ()) or e[0] == a.bb]
+            evs = [e for e in evs if not (e[3] is not None and e[3].bb == a.bb)]
+            copies = [e for e in evs if e[3] is not None and (e[3].path in cm.COPY)]
+            derivs = [e for e in evs if e[3] is not None and e[3].is_local and e[3].path not in cm.COPY]
+            others = [e for e in evs if e not in copies and e not in derivs]
+            ok = len(evs) == 1 and not others
+            rep.ob("FAITHFUL", "%s|%s%s" % (f.path, f.local_name(root), tag), ok,
+                   "buffer `%s` passed to %s is written %d time(s) before the call: %s" % (
+                       f.local_name(root), a.rpath.split("::")[-1], len(evs), [e[2] for e in evs]), loc=a.loc())
